@@ -978,6 +978,20 @@ func (e *Evaluator) arith(op string, l, r interface{}) (interface{}, error) {
 			return out, nil
 		}
 	}
+	if ls, ok := l.(string); ok {
+		if rs, ok := r.(string); ok {
+			switch op {
+			case "<":
+				return ls < rs, nil
+			case "<=":
+				return ls <= rs, nil
+			case ">":
+				return ls > rs, nil
+			case ">=":
+				return ls >= rs, nil
+			}
+		}
+	}
 	li, lIsInt := l.(int64)
 	ri, rIsInt := r.(int64)
 	lf, lIsF := l.(float64)
